@@ -25,7 +25,7 @@ def ref_parse(bs):
     j = i
     while j < n and s[j] != 32: j += 1
     verb = s[i:j]
-    if not verb: return None
+    if not verb or verb[:1] == b':': return None      # a trailing parameter where the command should be: no command
     params = []
     i = j
     while i < n:
